@@ -1,20 +1,120 @@
-//! Judge built on the spec monitor.
+//! Judge built on the spec monitor, plus the C11 differential probe.
 
 use crate::ctx::Config;
-use crate::explore::{Judge, Verdict};
+use crate::explore::{Judge, Verdict, Violation};
+use crate::model::*;
 use crate::monitor::run_monitor;
 use crate::universe::Execution;
+use std::collections::HashMap;
 use std::sync::Arc;
 
-pub struct MonitorJudge;
+pub struct MonitorJudge
+{
+    /// Canonical trace segment of the probe tree when nothing ran before it.
+    pub probe_baseline: Option<Vec<String>>,
+}
+
+impl MonitorJudge
+{
+    pub fn new() -> Self { MonitorJudge{ probe_baseline: None } }
+}
+
+/// Canonical form of the probe tree's trace segment: everything the probe can observe, with payload ids and
+/// bookkeeping entity ids renumbered from the start of the segment, and without state that earlier trees change
+/// legitimately (liveness / component samples, registration tables).
+pub fn probe_segment(trace: &[TEv]) -> Option<Vec<String>>
+{
+    let start = trace.iter().position(|e| matches!(e, TEv::Value{ what, .. } if what == "probe-start"))?;
+    let mut out = Vec::new();
+    let mut pmap: HashMap<PayloadId, u32> = HashMap::new();
+    let mut emap: HashMap<(u32, u32), u32> = HashMap::new();
+    let mut np = |p: PayloadId, m: &mut HashMap<PayloadId, u32>| -> u32 { let n = m.len() as u32; *m.entry(p).or_insert(n) };
+    let mut nn = |n: Name, m: &mut HashMap<(u32, u32), u32>| -> String {
+        match n
+        {
+            Name::Other(i, g) => { let k = m.len() as u32; format!("X{}", *m.entry((i, g)).or_insert(k)) }
+            other => format!("{:?}", other),
+        }
+    };
+    // top-level command indices are renumbered from the first probe command
+    let top_base: u16 = trace[start + 1..].iter().find_map(|e| match e { TEv::Top{ cmd, .. } => Some(cmd.idx), _ => None }).unwrap_or(0);
+    let nc = |c: &CmdId| -> String {
+        match c.by { Issuer::Top => format!("Top#{}", c.idx.wrapping_sub(top_base)), other => format!("{:?}#{}", other, c.idx) }
+    };
+    for ev in trace[start + 1..].iter()
+    {
+        match ev
+        {
+            TEv::Top{ cmd, issued } | TEv::Issue{ cmd, issued } =>
+                out.push(format!("issue {} {:?} p={:?}", nc(cmd), issued.op, issued.payload.map(|p| np(p, &mut pmap)))),
+            TEv::Applied{ cmd, .. } => out.push(format!("applied {}", nc(cmd))),
+            TEv::RunEnter{ id, local_ctr, closure_ctr, readers, .. } =>
+            {
+                let mut r = readers.clone();
+                r.sys = r.sys.map(|p| np(p, &mut pmap));
+                for b in r.bcast.iter_mut() { *b = b.map(|p| np(p, &mut pmap)); }
+                for e in r.ent_ev.iter_mut() { *e = e.map(|(n, p)| (n, np(p, &mut pmap))); }
+                out.push(format!("run {:?} {} {} {:?}", id, local_ctr, closure_ctr, r));
+            }
+            TEv::BodyExit{ id } => out.push(format!("exit {:?}", id)),
+            TEv::DeferredEnd{ id, .. } => out.push(format!("end {:?}", id)),
+            TEv::Drop(p) => out.push(format!("drop {}", np(*p, &mut pmap))),
+            TEv::Hook(h) => match h
+            {
+                Hook::CommandApply{ kind, target, source, data } =>
+                    out.push(format!("cmd {:?} {} {:?} {:?}", kind, nn(*target, &mut emap), source.map(|s| nn(s, &mut emap)), data.map(|d| nn(d, &mut emap)))),
+                Hook::Scheduled{ kind, target, source } => out.push(format!("sched {:?} {} {}", kind, nn(*target, &mut emap), nn(*source, &mut emap))),
+                Hook::RunnerEnter{ target, counter } => out.push(format!("enter {} {}", nn(*target, &mut emap), counter)),
+                Hook::RunnerDecision{ target, decision } => out.push(format!("decide {} {:?}", nn(*target, &mut emap), decision)),
+                Hook::RunnerBodyDone{ target } => out.push(format!("bodydone {}", nn(*target, &mut emap))),
+                Hook::RunnerReinsert{ target, reinserted } => out.push(format!("reinsert {} {}", nn(*target, &mut emap), reinserted)),
+                Hook::RunnerReplay{ parent, target } => out.push(format!("replay {} {}", nn(*parent, &mut emap), nn(*target, &mut emap))),
+                Hook::RunnerDiscard{ target } => out.push(format!("discard {}", nn(*target, &mut emap))),
+                Hook::RunnerExit{ target, counter } => out.push(format!("leave {} {}", nn(*target, &mut emap), counter)),
+            },
+            TEv::Quiescent{ snap, .. } => out.push(format!("quiet {} {} {:?} {:?} {} {} {} {}", snap.counter, snap.buffered, snap.prepared,
+                snap.reacting, snap.despawn_handle_held, snap.cache_scratch, snap.data_entities, snap.sys_event_data)),
+            TEv::Value{ what, .. } => { if what == "teardown" { break; } }
+            TEv::CanaryDrop(_) => {}
+            TEv::Panic(m) => out.push(format!("panic {m}")),
+        }
+    }
+    Some(out)
+}
 
 impl Judge for MonitorJudge
 {
     fn judge(&self, cfg: &Arc<Config>, ex: &Execution) -> Verdict
     {
         let out = run_monitor(cfg, &ex.trace);
+        let mut violations = out.violations;
+        if let Some(base) = &self.probe_baseline
+        {
+            match probe_segment(&ex.trace)
+            {
+                Some(seg) if seg != *base =>
+                {
+                    let at = seg.iter().zip(base.iter()).position(|(a, b)| a != b).unwrap_or(seg.len().min(base.len()));
+                    violations.push(Violation{
+                        property: "C11".into(),
+                        rule: "R-differential".into(),
+                        signature: "probe-tree-differs".into(),
+                        detail: format!("the probe tree behaves differently after the explored trees than on a fresh world: \
+                            first difference at event {at}: got {:?}, fresh world {:?}", seg.get(at), base.get(at)),
+                    });
+                }
+                Some(_) => {}
+                None =>
+                {
+                    violations.push(Violation{
+                        property: "*".into(), rule: "probe".into(), signature: "probe-missing".into(),
+                        detail: "probe tree did not run (execution ended early)".into(),
+                    });
+                }
+            }
+        }
         Verdict{
-            violations: out.violations,
+            violations,
             state_hashes: out.state_hashes,
             transitions: out.transitions,
             outcome_hash: out.outcome_hash,
